@@ -90,7 +90,8 @@ Definition observed_stored (o : list value) : option (list bytes) :=
   | _ => None
   end.
 
-Definition glue_recv (dir : Z) (hs : list value) (b key reqid : bytes) (tab : list value) (o : list value) : option verdict :=
+Definition glue_recv (dir : Z) (hs : list value) (b key reqid : bytes) (tab : list value) (o : list value)
+                     (extra : bool -> bool) : option verdict :=
   match honests_of hs, table_of tab, observed_accept o, observed_stored o with
   | Some hs, Some t, Some acc, Some stored =>
       let d := decode_packet b in
@@ -104,7 +105,7 @@ Definition glue_recv (dir : Z) (hs : list value) (b key reqid : bytes) (tab : li
                              then open_known t key (p_nonce p) (Some (firstn (p_pos p) b)) (p_ct p) else true
                    | _ => true end in
       Some (functional (VZ 1 :: recv_values d a) (vbool known :: o)
-              (C10_packet_ok hs b key dir reqid acc && (if dir =? 1 then C10_reject_clean acc stored else true)))
+              (C10_packet_ok hs b key dir reqid acc && (if dir =? 1 then C10_reject_clean acc stored else true) && extra acc))
   | _, _, _, _ => None
   end.
 
@@ -117,12 +118,31 @@ Definition sc_values (o : outcome server_cookie) : list value :=
 Definition glue_C10 (k : string) (a o : list value) : option verdict :=
   if is k "nts.req" then
     match a with
-    | [VL hs; VB b; VB key; VL tab] => glue_recv 0 hs b key [] tab o
+    | [VL hs; VB b; VB key; VL tab] => glue_recv 0 hs b key [] tab o (fun _ => true)
     | _ => None end
   else if is k "nts.resp" then
     match a with
-    | [VL hs; VB b; VB key; VB reqid; VL tab] => glue_recv 1 hs b key reqid tab o
+    | [VL hs; VB b; VB key; VB reqid; VL tab] => glue_recv 1 hs b key reqid tab o (fun _ => true)
     | _ => None end
+  else if is k "nts.session" then
+    (* a long session: the client with request number n outstanding is handed the response to request number k *)
+    match a with
+    | [VL hs; VB b; VB key; VB reqid; VL tab; VZ n; VZ k'] =>
+        glue_recv 1 hs b key reqid tab o (fun acc => C10_session_ok acc n k')
+    | _ => None end
+  else if is k "cl.ip" then
+    (* the real IP client with NTS: honest packets, the datagrams it was sent in order, its S2C key, the
+       identifier of its request, AEAD answers, deadline; observed: the datagram its offset was computed
+       from (-1: the call failed, -2: it hung), cookies of other datagrams than the genuine one in its store *)
+    match a, o with
+    | [VL hs; VL ds; VB key; VB reqid; VL tab; VZ dl], [VZ used; VZ leak] =>
+        match honests_of hs, getBs ds, table_of tab with
+        | Some hs, Some ds, Some t =>
+            let r := client_loop (open_tab t) (negb (dl =? 0)) key reqid ds 0 0 in
+            let e := match r with Some i => Z.of_nat i | None => -1 end in
+            Some (functional [VZ e; VZ 0] o (C10_client_ok hs ds key reqid used && (leak =? 0)))
+        | _, _, _ => None end
+    | _, _ => None end
   else if is k "nts.encode" then
     match a with
     | [VB hdr; VB uid; VL cs; VL phs; VB key; VB pt; VB rnd; VL tab] =>
